@@ -69,6 +69,7 @@ def gen_opts(rng, faults, deep=False):
         'failures': rng.choice(['raise', 'ignore']),
         'errors': 'raise',
         'catch_first_error': rng.random() < 0.5,
+        'cfe_as': rng.choice(['bool'] * 6 + ['int', 'np']),  # the flag may arrive as 1 / 0 or numpy.bool_
     }
     if faults:
         opts['errors'] = rng.choice(['raise', 'raise', 'skip', 'ignore', 'replace', 'bogus'])
@@ -110,6 +111,13 @@ def gen_plan(rng, opts, spec, faults, idx):
         else:
             kind = rng.choice(['conv', 'conv', 'conv', 'conv', 'partial', 'move']) if k > m + 1 else 'conv'
         passes.append({'a': 'delta', 'd': gen_deltas(rng, opts['tol'], n_endo, kind)})
+    if rng.random() < 0.04 and n_endo and spec.get('_allow_huge', True):
+        # finite but huge check values that change sign every pass: the step between two passes overflows
+        jj = rng.randrange(n_endo)
+        for kk in range(len(passes)):
+            v = [None] * n_endo
+            v[jj] = 1.2e308 if kk % 2 == 0 else -1.2e308
+            passes[kk] = {'a': 'set', 'v': v}
     if rng.random() < 0.12 and passes and n_endo:
         kk = rng.randrange(len(passes))
         passes[kk] = {'a': 'npunder', 'j': rng.randrange(n_endo), 'v': rng.choice(DYADS), 'd': passes[kk].get('d', [0.0] * n_endo)}
@@ -206,6 +214,9 @@ def generate(rng, idx, tier, variant):
     if variant == 'solver_parser':
         return gen_parser_schedule(rng, idx, tier)
     spec = gen_spec(rng, variant, tier)
+    np_err = rng.choice(['default'] * 7 + ['ignore', 'warn', 'raise'])
+    # (with the caller's error state at 'raise', an overflow in the solver's own step arithmetic is the caller's doing)
+    spec['_allow_huge'] = np_err != 'raise'
     ops = []
     two = rng.random() < 0.3  # a sibling instance of the same class takes part in the history
     last_t = None
@@ -230,7 +241,8 @@ def generate(rng, idx, tier, variant):
             ops.append({'op': 'add_variable', 'obj': who, 'name': f'N{len(ops)}', 'v': rng.choice(DYADS)})
         elif r < 0.55:
             ops.append({'op': 'eval', 'obj': who, 'expr': rng.choice(['{a} + 1', '{a} * {b}', '{a}[0] + nosuchname', '1 / ({a} - {a})', 'log({a} * 0)', '{a}[', 'lag({a})']), 'a': rng.choice(names), 'b': rng.choice(names), 'warnings_': rng.choice(['ignore', 'always', 'error'])})
-    return {'spec': spec, 'ops': ops, 'np_err': rng.choice(['default'] * 7 + ['ignore', 'warn', 'raise'])}
+    spec.pop('_allow_huge', None)
+    return {'spec': spec, 'ops': ops, 'np_err': np_err}
 
 
 # ---- parser-built models: contractive / divergent / oscillating systems, natural faults
@@ -299,6 +311,17 @@ def build(fsic, spec):
     return m, span, list(base.ENDOGENOUS), list(base.CHECK), [x for x in base.NAMES if x not in base.ENDOGENOUS]
 
 
+def solver_kwargs(opts):
+    """Options record -> keyword arguments (the record keeps how the catch_first_error flag is spelt)."""
+    kw = {k: v for k, v in opts.items() if k != 'cfe_as'}
+    how = opts.get('cfe_as', 'bool')
+    if how == 'int':
+        kw['catch_first_error'] = int(bool(kw['catch_first_error']))
+    elif how == 'np':
+        kw['catch_first_error'] = np.bool_(kw['catch_first_error'])
+    return kw
+
+
 def count_faults(ctx, log, opts):
     for r in log:
         a = r.get('act')
@@ -348,7 +371,7 @@ def do_solve(m, span, spec, op, endo, check, exo, ctx, step):
     ctl.arm(op.get('plan'))
     out = {}
     try:
-        kw = dict(op['opts'])
+        kw = solver_kwargs(op['opts'])
         t_arg = t
         if op.get('np_ints'):
             for k_ in ('min_iter', 'max_iter', 'offset'):
